@@ -53,7 +53,7 @@ func L() *big.Int { return new(big.Int).Set(orderL) }
 // ---------------------------------------------------------------------------
 // GF(p)
 
-func fNorm(a *big.Int) *big.Int { return new(big.Int).Mod(a, fieldP) }
+func fNorm(a *big.Int) *big.Int   { return new(big.Int).Mod(a, fieldP) }
 func fAdd(a, b *big.Int) *big.Int { return fNorm(new(big.Int).Add(a, b)) }
 func fSub(a, b *big.Int) *big.Int { return fNorm(new(big.Int).Sub(a, b)) }
 func fMul(a, b *big.Int) *big.Int { return fNorm(new(big.Int).Mul(a, b)) }
@@ -63,7 +63,7 @@ func fPow(a, e *big.Int) *big.Int { return new(big.Int).Exp(a, e, fieldP) }
 func fInt(v int64) *big.Int       { return fNorm(big.NewInt(v)) }
 
 // fInv is a^(p-2) (Fermat); inv(0) = 0.
-func fInv(a *big.Int) *big.Int { return fPow(a, new(big.Int).Sub(fieldP, big2)) }
+func fInv(a *big.Int) *big.Int    { return fPow(a, new(big.Int).Sub(fieldP, big2)) }
 func fDiv(a, b *big.Int) *big.Int { return fMul(a, fInv(b)) }
 
 // fIsNeg is the sign convention of RFC 8032 / RFC 9496 / RFC 9380 sgn0 for a
@@ -514,6 +514,9 @@ func selfCheck() (err error) {
 	eq("v^2 = u^3 + A u^2 + u (RFC 7748 §4.1 base point)", fSqr(v), rhs)
 	c := elligatorSqrtNegAPlusTwo()
 	eq("sqrt(-(A+2))^2", fSqr(c), fNeg(fAdd(montA, big2)))
+	// RFC 7748 §4.1 prints the other root of -486664 (it pairs with the other sign of v).
+	eq("sqrt(-486664): the sgn0 = 0 root is the negation of the value RFC 7748 §4.1 prints", c,
+		fNeg(bi("51042569399160536130206135233146329284152202253034631822681833788666877215207")))
 	x1 := fDiv(fMul(c, u), v)
 	if x1.Cmp(b.X) != 0 && fNeg(x1).Cmp(b.X) != 0 {
 		bad = append(bad, "sqrt(-486664)*u/v is not ±B.x for the RFC 7748 base point")
